@@ -327,4 +327,20 @@ def dePadToAlignment (d : De) (n : Nat) : Except Err De :=
     let off ← dePadLoop n n d.off
     .ok ⟨d.buf, off⟩
 
+/-! ## specification devices (not part of the transcription) -/
+
+/-- the field of `n` bits at the cursor of a deserializer, zero-extended beyond the buffer -/
+def deField (d : De) (n : Nat) : Nat := fieldOf (fun i => bitAt d.buf (d.off + i)) n
+
+/-- serializer invariant: the bytes are bytes and every bit at or above the cursor is zero
+(true for `Serializer.new`, preserved by every `add_*`) -/
+def Ser.Inv (s : Ser) : Prop := WF s.buf ∧ ∀ i, s.off ≤ i → bitAt s.buf i = false
+
+/-- `s'` is `s` with exactly the `n` bits `bit 0 … bit (n-1)` appended at the cursor: the cursor advances by `n`,
+the buffer keeps its size, everything below the old cursor is untouched, everything from the new cursor on is
+still zero. -/
+def Appends (s s' : Ser) (n : Nat) (bit : Nat → Bool) : Prop :=
+  s'.off = s.off + n ∧ s'.buf.length = s.buf.length ∧ s'.Inv ∧
+  ∀ i, bitAt s'.buf i = if i < s.off then bitAt s.buf i else (decide (i < s.off + n) && bit (i - s.off))
+
 end NunavutVerif.Bits.Py
